@@ -202,7 +202,7 @@ def r03_3(ctx):
     ctx.run_rule("R03.3", "text filter executed-flag typestate", body, floor=9)
 
 
-def r03_4(ctx):
+def r03_4(ctx, rid="R03.4"):
     F = ctx.facts
 
     def body(r):
@@ -241,7 +241,7 @@ def r03_4(ctx):
                     if e[0] == "call" and e[1] == ITEM + "::filter" and e[2][1] in (("param", 2), ("local", 2), ("havoc", 2)):
                         okt = True
         r.ob("end-chain:do_filter-threads-data", len(lg) == 1 and okt, g.site, "do_filter feeds each stage with the output of the previous one, in chain order")
-    ctx.run_rule("R03.4", "end() chaining of the stage list", body, floor=4)
+    ctx.run_rule(rid, "end() chaining of the stage list", body, floor=4)
 
 
 TAG_TOKENS = ("StartTagToken", "EndTagToken", "SelfClosingTagToken")
